@@ -80,12 +80,20 @@ def _run_cvc5(smt2, timeout_ms):
 
 def _work(item):
     oid, smt2, expect, use_cvc5, z3_timeout = item
-    verdict, reason, t, model = _run_z3(smt2, z3_timeout, want_model=True)
+    t = 0.0
+    if expect == "unsat":
+        # Portfolio.  Array extensionality off is a weaker theory (fewer axioms): only `unsat` is accepted from it, and it is
+        # both faster and far more stable on the quantified obligations here, so it goes first with a third of the budget.
+        v0, r0, t0, _ = _run_z3(smt2, max(1000, z3_timeout // 3), want_model=False, noext=True)
+        t += t0
+        if v0 == "unsat":
+            return oid, "unsat", "z3-noext", "", t, None
+    verdict, reason, t1, model = _run_z3(smt2, z3_timeout, want_model=True)
+    t += t1
     backend = "z3"
     if verdict == "unknown" and expect == "unsat":
-        # same query, array extensionality off: a weaker theory, so only `unsat` is accepted from it
-        v1, r1, t1, _ = _run_z3(smt2, z3_timeout, want_model=False, noext=True)
-        t += t1
+        v1, r1, t2, _ = _run_z3(smt2, z3_timeout, want_model=False, noext=True)
+        t += t2
         if v1 == "unsat":
             verdict, reason, backend = "unsat", "", "z3-noext"
     if verdict in ("unknown", "error") and use_cvc5:
